@@ -104,8 +104,35 @@ struct Child {
     inflight: PathBuf,
 }
 
+/// what a crashed replay printed last on stderr (panic message, allocator abort text, ...)
+fn stderr_tail_of(file: &Path) -> String {
+    let p = file.with_extension("stderr");
+    let s = std::fs::read(&p).map(|b| String::from_utf8_lossy(&b).into_owned()).unwrap_or_default();
+    let _ = std::fs::remove_file(&p);
+    let interesting: Vec<&str> = s.lines().filter(|l| !l.trim().is_empty() && !l.trim_start().starts_with("at ") && !l.contains("RUST_BACKTRACE") && !l.trim_start().chars().next().map_or(false, |c| c.is_ascii_digit())).collect();
+    let tail: Vec<&str> = interesting.iter().rev().take(3).rev().copied().collect();
+    let mut t = tail.join(" | ");
+    t.truncate(500);
+    t
+}
+
+thread_local! {
+    static LAST_STDERR: std::cell::RefCell<String> = std::cell::RefCell::new(String::new());
+}
+fn stderr_tail() -> String {
+    LAST_STDERR.with(|l| l.borrow().clone())
+}
+
 fn run_replay_file(exe: &Path, prop: &str, file: &Path, timeout: Duration) -> (Option<i32>, String) {
-    let mut c = match Command::new(exe).arg("replay").arg(prop).arg(file).stdout(Stdio::piped()).stderr(Stdio::null()).spawn() {
+    let r = run_replay_file_inner(exe, prop, file, timeout);
+    let t = stderr_tail_of(file);
+    LAST_STDERR.with(|l| *l.borrow_mut() = t);
+    r
+}
+
+fn run_replay_file_inner(exe: &Path, prop: &str, file: &Path, timeout: Duration) -> (Option<i32>, String) {
+    let errf = std::fs::File::create(file.with_extension("stderr")).map(Stdio::from).unwrap_or_else(|_| Stdio::null());
+    let mut c = match Command::new(exe).arg("replay").arg(prop).arg(file).stdout(Stdio::piped()).stderr(errf).spawn() {
         Ok(c) => c,
         Err(e) => return (Some(2), format!("spawn failed: {}", e)),
     };
@@ -329,7 +356,9 @@ fn parent(prop: &str, tier: Tier, seed: u64, jobs: usize) -> i32 {
                                         if violations.len() < 2 {
                                             shrink_crash(&exe, prop, &rp, 150);
                                         }
-                                        violations.push((prop.to_string(), format!("process died ({:?}) while running this case, and dies again on replay ({:?}): crash in safe code", st, other), rp))
+                                        let (_, _) = run_replay_file(&exe, prop, &rp, Duration::from_secs(300));
+                                        let tail = stderr_tail();
+                                        violations.push((prop.to_string(), format!("process died ({:?}) while running this case, and dies again on replay ({:?}): crash in safe code{}", st, other, if tail.is_empty() { String::new() } else { format!(" [last words: {}]", tail) }), rp))
                                     }
                                 }
                             }
